@@ -63,6 +63,7 @@ def run(ctx):
     R2 = ctx.rule('C19.R2', 'read_chunk copies only after the stored length equals the requested one; cursor advances by header+payload')
     R4 = ctx.rule('C19.R4', 'archive_traits loaders: every read_chunk(p, n) writes inside the object p points to (n <= sizeof(T) for scalars, n <= v.size()*sizeof(T) for the resized vector)')
     R5 = ctx.rule('C19.R5', 'next_chunk_size rejects only what does not fit: every throw is reachable only when fewer than 4 header bytes remain or the announced length exceeds the remaining payload (a well-formed last chunk, also an empty one, is accepted)')
+    R6 = ctx.rule('C19.R6', 'container loaders rebuild the container in archive order: elements are appended (no position, end() as position, or an insert_iterator); a fixed position such as begin() reverses the order of equal keys / of the sequence')
     R3 = ctx.rule('C19.R3', 'save and load of every archive_traits specialisation perform the same chunk operations on every path')
 
     E = linbound.Engine(P, inline_depth=2 if ctx.tier == 'quick' else 3)
@@ -85,7 +86,7 @@ def run(ctx):
     ctx.floor(R1, 8)
 
     # R4: destination side of read_chunk in the (macro-generated) trivially copyable traits
-    E4 = linbound.Engine(P, inline_depth=0)
+    E4 = linbound.Engine(P, inline_depth=1)
     E4.byte_sinks = True
     E4.range_sinks = {AR + '::read_chunk': (0, 1)}
     loaders = sorted([f for f in P.fns.values() if f.short == 'load' and f.bname.startswith('cppcms::archive_traits') and any(f.bcallee(i) == AR + '::read_chunk' for i in f.calls())], key=lambda g: g.id)
@@ -164,6 +165,38 @@ def run(ctx):
     ctx.check(len(ap) == 2 and wr.const_value(wr.args(ap[0])[1]) == 4 and q.param_by_index(wr, 1) in wr.subtree_refs(wr.args(ap[1])[1]) and q.before(wr, ap[0], ap[1]), R2,
               'write_chunk:4-byte-length-then-payload', 'writer does not emit a 4-byte length followed by len payload bytes', wr.where)
     ctx.floor(R2, 4)
+
+    # R6: loaded elements are appended in archive order
+    n6 = 0
+    for f in sorted(P.fns.values(), key=lambda g: g.id):
+        if not ((f.short == 'load' and f.bname.startswith('cppcms::archive_traits')) or f.bname == 'cppcms::details::archive_load_container'):
+            continue
+        cont = q.param_by_index(f, 0)
+        tname = f.id.split('(')[0].replace('cppcms::archive_traits', 'traits').replace('std::basic_string<char>', 'string')
+        for L in q.loops(f):
+            for i in f.calls(f.N(L)['body']):
+                sh = q.short_of(f.bcallee(i) or '')
+                o = f.obj(i)
+                if sh not in ('insert', 'emplace_hint', 'emplace', 'push_back', 'push_front') or o is None or f.ref_of(o) != cont:
+                    continue
+                a = [x for x in f.args(i) if f.N(x)['k'] != 'CXXDefaultArgExpr']
+                n6 += 1
+                if sh in ('push_back',) or (sh in ('insert', 'emplace') and len(a) == 1):
+                    ctx.check(True, R6, '%s:%s:appends' % (tname, sh), '', f.loc(i))
+                    continue
+                ctype = (f.types[f.params[0]['t']] or '').replace('const ', '')
+                if ctype.startswith(('std::map<', 'std::set<')):
+                    ctx.check(True, R6, '%s:%s:unique-keys-position-is-only-a-hint' % (tname, sh), '', f.loc(i))
+                    continue
+                pos_end = len(a) >= 2 and any(q.short_of(f.bcallee(c) or '') in ('end', 'cend') and f.obj(c) is not None and f.ref_of(f.obj(c)) == cont for c in f.calls(a[0]))
+                ctx.check(sh != 'push_front' and pos_end, R6, '%s:%s:position-is-end' % (tname, sh), 'loaded elements are inserted at a fixed position other than end(): order of the saved container is not reproduced', f.loc(i))
+        for i in f.calls():
+            if q.short_of(f.bcallee(i) or '') == 'insert_iterator' and f.N(i)['k'] in ('CXXConstructExpr', 'CXXTemporaryObjectExpr'):
+                n6 += 1
+                lp = [L for L in q.loops(f) if f.contains(L, i)]
+                ctx.check(not lp, R6, '%s:insert_iterator:created-once-before-the-loop' % tname, 'the insert position is reset on every element', f.loc(i))
+    ctx.check(n6 >= 4, R6, 'container-loaders-found', 'expected the insert sites of the map / multimap / sequence loaders (%d found)' % n6, AR)
+    ctx.floor(R6, 4)
 
     # R3
     pairs = {}
